@@ -703,3 +703,33 @@ Proof.
   - intros HT2. apply retention_before; assumption.
   - apply retention_le; assumption.
 Qed.
+
+(* ------------------------------------------------------------------------------------------ *)
+(* clause (a), metadata: the metadata of a multi-series answer is taken from the LAST matching series of
+   the table; a pass keeps every series' metadata but may drop whole series                      *)
+
+Definition last_meta (l : list (sid * segment)) : meta :=
+  match rev l with ks :: _ => s_meta (snd ks) | [] => meta0 end.
+
+Lemma get_meta_last sel from until st o : st_get sel from until st = Some o -> go_meta o = last_meta (st_matching sel st).
+Proof. rewrite st_get_eq. cbv zeta. destruct (merge_serial _); [|discriminate]. intros [= <-]. reflexivity. Qed.
+
+(* after the pass: the metadata of the last matching series that survives (meta0 if none: then the answer is None
+   anyway, because every surviving... see retention_after for the tree) *)
+Lemma retention_meta thr sel from until st o' : segs_sorted (st_segs st) ->
+  st_get sel from until (st_retention thr st) = Some o' ->
+  go_meta o' = last_meta (flat_map (ret_entry thr) (st_matching sel st)).
+Proof. intros HS H. rewrite (get_meta_last _ _ _ _ _ H), (st_matching_ret thr sel st HS). reflexivity. Qed.
+
+(* so the metadata is unchanged exactly when the last matching series is not dropped entirely *)
+Lemma retention_meta_same thr sel from until st o o' m0 ks : segs_sorted (st_segs st) ->
+  st_matching sel st = m0 ++ [ks] -> ret_del thr (snd ks) = false ->
+  st_get sel from until st = Some o -> st_get sel from until (st_retention thr st) = Some o' ->
+  go_meta o' = go_meta o.
+Proof.
+  intros HS Hm Hd Ho Ho'. rewrite (retention_meta thr sel from until st o' HS Ho'), (get_meta_last _ _ _ _ _ Ho), Hm.
+  unfold last_meta. rewrite flat_map_app, !rev_app_distr. cbn [flat_map rev app]. unfold ret_entry at 1. rewrite Hd.
+  cbn [app rev snd]. apply ret_meta.
+Qed.
+
+(* ... and a dropped last series really changes it: witness in Props/C11.v (C11_retention_meta_refuted) *)
